@@ -28,7 +28,7 @@ impl Property for C06 {
         [300, 8, 12]
     }
     fn required_classes(&self) -> Vec<&'static str> {
-        vec!["header-permuted", "input-omitted", "output-omitted", "bidir-split", "bidir-out-only", "virtual-column", "changed=false", "changed=true", "Z-default", "Z-input-entry", "row-after-error-item", "test-without-inputs", "virtual-named-like-a-bidirectional-out-column", "Z-next-to-all-ones"]
+        vec!["header-permuted", "input-omitted", "output-omitted", "bidir-split", "bidir-out-only", "virtual-column", "changed=false", "changed=true", "Z-default", "Z-input-entry", "row-after-error-item", "test-without-inputs", "virtual-named-like-a-bidirectional-out-column", "Z-next-to-all-ones", "column-shared-by-an-input-and-a-bidirectional"]
     }
     fn run(&self, s: &Streams) -> CaseOut {
         let mut out = CaseOut::new();
@@ -43,6 +43,9 @@ impl Property for C06 {
         cfg.wild_defaults = true;
         cfg.permute_header = true;
         cfg.omit_cols = true;
+        // now and then an input called `<b>_out` next to the bidirectional `<b>`: one column is
+        // then that input's and the bidirectional's expected value at once
+        cfg.shared_cols = true;
         let sigs = gen_signals(&mut ch, &cfg);
         let readable: Vec<String> =
             sigs.iter().filter(|s| s.is_output() && is_ident(&s.name)).map(|s| s.name.clone()).collect();
@@ -165,6 +168,7 @@ impl Property for C06 {
         out.class_if(!virtuals.is_empty(), "virtual-column");
         out.class_if(sigs.iter().any(|s| s.default() == Some(InVal::Z)), "Z-default");
         out.class_if(!sigs.iter().any(|s| s.is_input()), "test-without-inputs");
+        out.class_if(cols.iter().any(|c| c.role == ColRole::Shared), "column-shared-by-an-input-and-a-bidirectional");
         out.nontrivial = permuted || in_omitted || out_omitted || split || apart;
 
         let Some(tc) = load_wellformed(&mut out, "c06", &text, &sigs) else {
